@@ -66,6 +66,9 @@ Inductive pevent :=
 | PRenewOk | PRenewExpired | PRenewErr     (* the wait elapsed and Renew answered *)
 | PDemote                                  (* manual demotion *)
 | PHandoff (connected lease_ok : bool)     (* handoff request: the target is a connected subscriber / Lease.Handoff succeeds *)
+| PHandoffLeaseGone                        (* handoff request to a connected target; the renewal made before the lease id is passed
+                                              on reports the lease gone.  A handoff that fails otherwise changes nothing: in
+                                              particular it does not postpone the next renewal *)
 | PShutdown.
 Inductive pexit := XExpired | XDemoted | XHandedOff | XShutdown | XStillPrimary.
 
@@ -88,6 +91,7 @@ Fixpoint primary_loop (ttl : N) (s : pstate) (evs : list pevent) : pexit * bool 
     | PDemote => (XDemoted, true, p_since s)
     | PHandoff connected ok =>
       if connected && ok then (XHandedOff, false, p_since s) else primary_loop ttl s r
+    | PHandoffLeaseGone => (XExpired, true, p_since s)
     | PShutdown => (XShutdown, true, p_since s)
     end
   end.
@@ -121,3 +125,14 @@ Definition attach (local stream : option N) : option N * bool :=
            | None, None => true
            | _, _ => false
            end).
+
+(* ---------- right after the acquisition (store.go monitorLeaseAsPrimary) ---------- *)
+(* the lease service's cluster id is read once more: none = the node initialises it with its own (or a new) id; otherwise it
+   has to be the node's stored id.  Returns whether the node goes on to be primary, and the id the service has afterwards
+   (0 stands for a freshly generated id). *)
+Definition post_acquire (local leaser : option N) : bool * option N :=
+  match leaser with
+  | None => (true, Some (match local with Some a => a | None => 0 end))
+  | Some b => (match local with Some a => a =? b | None => false end, Some b)
+  end.
+
